@@ -20,7 +20,7 @@ func TestVerifC01(t *testing.T) {
 	if r.Thorough() {
 		maxCuts = 3
 	}
-	r.SetBound(fmt.Sprintf("all block partitions with <=%d cuts + all uniform block sizes, stream length 4*nsamp+14, (npre,nsamp) in {(3,5),(4,14)}, signed/unsigned, 12 trigger configurations (edge, level, auto, combined, edge-multi x3) + group secondaries, 5 control histories, single/double pulses", maxCuts))
+	r.SetBound(fmt.Sprintf("all block partitions with <=%d cuts + all uniform block sizes, stream length 4*nsamp+14, (npre,nsamp) in {(3,5),(4,14)}, signed/unsigned, 13 trigger configurations (edge, level, auto, combined, edge-multi x3) + group secondaries, 5 control histories, single/double pulses, fast pulses followed by a slow level-only pulse", maxCuts))
 	vTrigCases(r, true, func(id string, sc *vTrigScenario) {
 		built := false
 		r.DFS(id, -1, func(x *vexp.X) vexp.Result {
@@ -30,7 +30,7 @@ func TestVerifC01(t *testing.T) {
 				built = true
 			}
 			cuts := maxCuts
-			if sc.L > 40 && len(sc.pulses) > 1 && cuts > 2 {
+			if sc.L > 40 && len(sc.pulses)+len(sc.slow) > 1 && cuts > 2 {
 				cuts = 2
 			}
 			bounds := vChoosePartition(x, sc.L, cuts, true)
